@@ -19,7 +19,7 @@ Definition opt_n_eqb (a c : option N) : bool :=
 Definition lreq_eqb (a c : bytes * option N) : bool := bytes_eqb (fst a) (fst c) && opt_n_eqb (snd a) (snd c).
 
 (* ---- C15: [raw] is the prefix value the caller gave to OcflRepo::s3_repo / init_s3_repo
-   ("" for None); the client works with [client_prefix raw] (s3.rs:741) *)
+   ("" for None); the client works with [client_prefix raw] (s3.rs:777) *)
 
 (** the ListObjectsV2 requests of one list_prefix call: (prefix parameter, continuation token) *)
 Definition listing_requests (psize : nat) (keys : list bytes) (cp path : bytes) (delim : bool) : list (bytes * option N) :=
@@ -99,7 +99,21 @@ Definition check_purge (raw root : bytes) (bk : bucket) (obs_class : N) (obs_del
   list_eqb bytes_eqb (map (fun r => match r with RDelete k => k | _ => [] end) (st_log (snd out))) obs_deleted &&
   pairs_set_eqb (st_b (snd out)) obs_bucket.
 
-Definition known_c15_root (existing : list bytes) (root : bytes) : bool := c15_s3_object_root_unchecked existing root.
+(** the first commit of a new object (write_new_object, s3.rs:483-524): the root is accepted iff
+    validate_object_root passes and nothing is stored below it.  obs_class: 0 = committed,
+    1 = refused *)
+Definition check_new_object_root (raw : bytes) (keys : list bytes) (root : bytes) (obs_class : N) : bool :=
+  let cp := client_prefix raw in
+  match s3_validate_object_root keys cp root with
+  | Ok _ => match listing_empty (list_all keys cp root true) with
+            | Ok true => obs_class =? 0
+            | Ok false => obs_class =? 1
+            | Err => obs_class =? 1
+            | Panic => obs_class =? 2
+            end
+  | Err => obs_class =? 1
+  | Panic => obs_class =? 2
+  end.
 
 (* ---- C16 *)
 
